@@ -474,9 +474,12 @@ def generate(rng, tier, index):
                                  "op": {"fn": rng.choice(["genhkl_all", "genhkl_unique"]), "module": m2,
                                         "mode": {"by": "sgno"}, "output_stl": rng.chance(0.5), "w": w2,
                                         "rng": {"start": ["continue"], "preconsume": 0, "per_draw": {}}}}
-    cfg = {"logging": rng.weighted([("quiet", 5), ("default", 2), ("debug", 3)]),
+    cfg = {"logging": rng.weighted([("quiet", 5), ("default", 2), ("debug", 3)]), "clock": core.gen_clock(rng),
+           "checks_off": rng.chance(0.2),
            "workloads": workloads, "fault_free": fault_free, "fault_kinds": kinds, "session_seed": rng.bits(32),
            "cell_container": rng.choice(["list", "list", "ndarray"])}
+    if rng.chance(0.01):
+        cfg["import_env"] = rng.choice(core.IMPORT_ENVS)
     return {"property": "C05", "config": cfg, "ops": merged}
 
 
@@ -643,6 +646,17 @@ def execute(trace):
     logcfg = core.log_config(cfg.get("logging", "quiet"))
     logcfg.__enter__()
     count("logging." + logcfg.mode)
+    clock = core.sim_clock(cfg.get("clock"))
+    clock.__enter__()
+    # the package-wide input-check switch is just another piece of process configuration a client may have changed
+    import xfab as _xfab
+    switch_off = bool(cfg.get("checks_off"))
+    if switch_off:
+        try:
+            _xfab.CHECKS.activated = False
+            count("config.checks_switch_off")
+        except Exception:
+            pass
     seam = RngSeam(np)
     saved_state = np.random.get_state()
     # the stream a session starts from is part of the trace (numpy seeds the global state from
@@ -908,6 +922,16 @@ def execute(trace):
         seam.remove()
         np.random.set_state(saved_state)
         logcfg.__exit__(None, None, None)
+        clock.__exit__(None, None, None)
+        if clock.reads:
+            count("probe.clock_reads_by_code_under_test", clock.reads)
+        if clock.jumped:
+            count("fault.clock_jump")
+        if switch_off:
+            try:
+                _xfab.CHECKS.activated = True
+            except Exception:
+                pass
     for k, v in seam.fired.items():
         count("fault." + k, v)
     draws_total = tot[0]
